@@ -458,6 +458,17 @@ func history(c *core.Case) {
 				fail("copy-aliases-original", "mutating a Copy() changed the original: "+d)
 				return
 			}
+			// the set as every restarted node reads it back: through its protobuf form
+			if pb, err := real.ToProto(); err == nil {
+				if back, err := types.ValidatorSetFromProto(pb); err != nil {
+					fail("proto-roundtrip-error", "ValidatorSetFromProto(ToProto(set)): "+err.Error())
+					return
+				} else if !sameSet(back, real) || (real.Proposer != nil && (back.Proposer == nil || back.Proposer.Address != real.Proposer.Address)) {
+					fail("proto-roundtrip-differs", "the set decoded from its own protobuf form differs from the original (validators, priorities or the designated proposer)")
+					return
+				}
+				run.Count("proto_roundtrips", 1)
+			}
 			trace = append(trace, step{Op: "copy+increment-on-copy"})
 		default:
 			k := 1 + r.Intn(5)
